@@ -156,3 +156,130 @@ Definition send_bid_gen (compare : bool) (o : oracles) (a : call_args) (view : l
 Definition send_bid := send_bid_gen true.
 (* before 93c1731: the embedded bid was never compared with the bid sent *)
 Definition send_bid_v0 := send_bid_gen false.
+
+(* ============================================================================================ *)
+(* Operational model: every blocking call of the goroutine, with the context checked where the
+   transport checks it.
+
+   [send_bid] above is the reading for a call made BEFORE its deadline (0 < D) on a transport
+   whose three operations all return when the context ends; it postulates that a blocked
+   operation returns at D ([finish_time]).  Below nothing of the kind is postulated: whether
+   NewStream / WriteMsg / ReadMsg return when the context ends is a property of the transport
+   ([transport], one flag per operation), an already expired context (D = 0) is seen by NewStream,
+   an operation that does not watch the context returns when its scripted event happens -- after
+   the deadline, or never.  [send_bid_op ctx_transport] coincides with [send_bid] for 0 < D
+   (proofs/PreconfBidder_proofs.v: [op_is_send_bid]).
+
+   All three calls are issued at time 0 (the call time): NewStream and WriteMsg complete at once
+   unless the script says they are the failing / blocked operation (RNewStreamErr, RWriteErr: at
+   [p_time]); ReadMsg completes at [p_time] (never for RSilence).  An event exactly at D loses
+   against the context in an operation that watches it ([D <=? t]); in the goroutine's final
+   select both cases can be ready only at or after D, where Go picks either one: [pick_send]. *)
+(* ============================================================================================ *)
+Inductive time := At (t : N) | Never.
+
+Record transport := mkTransport {
+  ctx_newstream : bool;   (* Streamer.NewStream returns when the context ends *)
+  ctx_write     : bool;   (* Stream.WriteMsg does *)
+  ctx_read      : bool;   (* Stream.ReadMsg does *)
+  pick_send     : bool    (* final select with the context already done: the send is chosen *)
+}.
+(* pkg/p2p/libp2p as it is: host.NewStream(ctx, ...), select on ctx.Done() in WriteMsg and ReadMsg *)
+Definition ctx_transport : transport := mkTransport true true true false.
+
+Inductive opres :=
+| Scripted (t : N)     (* the operation returns its scripted result at t *)
+| CtxErr (t : N)       (* it returns the context's error at t *)
+| Blocks.              (* it never returns *)
+
+(* an operation issued at time 0 whose scripted event happens at [ev] (None: never) *)
+Definition wait (watches_ctx : bool) (D : N) (ev : option N) : opres :=
+  match ev with
+  | Some t => if watches_ctx && (D <=? t) then CtxErr D else Scripted t
+  | None => if watches_ctx then CtxErr D else Blocks
+  end.
+
+Record otrace := mkO { x_addr : bytes; x_written : list bid; x_out : gout; x_finish : time }.
+
+Definition provider_op (compare : bool) (tr : transport) (vf : commitment -> outcome bytes)
+           (sent : bid) (D : N) (p : peer) : otrace :=
+  let ad := p_addr p in
+  (* providerStream, err := p.streamer.NewStream(ctx, provider, nil, p.preconfStream()) *)
+  match wait (ctx_newstream tr) D (match p_reply p with RNewStreamErr => Some (p_time p) | _ => Some 0 end) with
+  | Blocks => mkO ad [] GNothing Never
+  | CtxErr t => mkO ad [] GNothing (At t)                          (* err != nil: return *)
+  | Scripted t =>
+    match p_reply p with
+    | RNewStreamErr => mkO ad [] GNothing (At t)                   (* err != nil: return *)
+    | _ =>
+      (* err = providerStream.WriteMsg(ctx, signedBid) *)
+      match wait (ctx_write tr) D (match p_reply p with RWriteErr => Some (p_time p) | _ => Some 0 end) with
+      | Blocks => mkO ad [sent] GNothing Never
+      | CtxErr t => mkO ad [sent] GNothing (At t)                  (* err != nil: Reset, return *)
+      | Scripted t =>
+        match p_reply p with
+        | RWriteErr => mkO ad [sent] GNothing (At t)               (* err != nil: Reset, return *)
+        | _ =>
+          (* err = providerStream.ReadMsg(ctx, preConfirmation) *)
+          match wait (ctx_read tr) D (match p_reply p with RSilence => None | _ => Some (p_time p) end) with
+          | Blocks => mkO ad [sent] GNothing Never
+          | CtxErr t => mkO ad [sent] GNothing (At t)              (* err != nil: Reset, return *)
+          | Scripted t =>
+            match p_reply p with
+            | RFrames c _ =>
+                (* Close; providerAddress, err := p.signer.VerifyPreConfirmation(preConfirmation) *)
+                match vf c with
+                | Panic => mkO ad [sent] GCrash (At t)
+                | Err _ => mkO ad [sent] GNothing (At t)
+                | Ok a =>
+                    if compare && negb (obid_eqb (c_bid c) (Some sent))
+                    then mkO ad [sent] GNothing (At t)             (* not for the bid sent: return *)
+                    else
+                      (* select { case preConfirmations <- preConfirmation: ; case <-ctx.Done(): } *)
+                      if (t <? D) || pick_send tr
+                      then mkO ad [sent] (GDeliver (set_prov c a)) (At t)
+                      else mkO ad [sent] GNothing (At t)
+                end
+            | _ => mkO ad [sent] GNothing (At t)                   (* err != nil: Reset, return *)
+            end
+          end
+        end
+      end
+    end
+  end.
+
+Definition x_crashed (g : otrace) : bool := match x_out g with GCrash => true | _ => false end.
+Definition x_delivery (g : otrace) : list (N * commitment) :=
+  match x_out g, x_finish g with GDeliver c, At t => [(t, c)] | _, _ => [] end.
+
+Definition tmax (a b : time) : time :=
+  match a, b with At u, At v => At (N.max u v) | _, _ => Never end.
+Definition tmax_list (l : list time) : time := fold_right tmax (At 0) l.
+
+Record xrun := mkXRun {
+  xr_sent      : bid;
+  xr_contacted : list (bytes * list bid);
+  xr_delivered : list (N * commitment);
+  xr_close     : time                        (* Never: the channel is never closed *)
+}.
+Inductive xresult := XErr | XPanic | XRun (r : xrun).
+
+Definition send_bid_op_gen (compare : bool) (tr : transport) (o : oracles) (a : call_args)
+           (view : list peer) (D : N) : xresult :=
+  match construct o a with
+  | Panic => XPanic
+  | Err _ => XErr
+  | Ok sent =>
+      match get_peers TProvider view with
+      | [] => XErr
+      | provs =>
+          let gs := map (provider_op compare tr (verify o) sent D) provs in
+          if existsb x_crashed gs then XPanic
+          else XRun (mkXRun sent
+                            (map (fun g => (x_addr g, x_written g)) gs)
+                            (flat_map x_delivery gs)
+                            (tmax_list (map x_finish gs)))      (* wg.Wait(); close(ch) *)
+      end
+  end.
+
+Definition send_bid_op := send_bid_op_gen true.
